@@ -20,9 +20,34 @@ Open Scope N_scope.
    (Gen) walking the node in Model/JsGen.v emits exactly the chunks of that MiniJS statement;
    and the three resulting states are related by [sim] again (with the longer buffer text), so the theorem applies
    to the next statement. *)
-Definition sim (cf : cfg) (st : mstate) (je : jenv) (jst : jstate) (old : bstr) : Prop :=
-  wok st /\ ctx st <> []
+(* what a statement with calls is relative to: the data of the template being rendered (data="all" passes it on), the
+   text a callee writes for given data, the JavaScript function of a callee, and a fuel that suffices for every call *)
+Record callctx := {
+  cc_denv : bstr -> option value;
+  cc_callee : bstr -> (bstr -> option value) -> option bstr;
+  cc_jfn : bstr -> jval -> jval -> outcome bstr;
+  cc_fuel : nat;
+}.
+(* (Go) the template a call names exists, and entering it (state.walk of its node in a scope that holds the callee's
+   data, autoescape mode of its namespace) writes the callee's text and gives the caller's scope and mode back *)
+Definition go_callee_ok (cf : cfg) (callee : bstr -> (bstr -> option value) -> option bstr) (cfuel : nat) : Prop :=
+  forall name cenv text, callee name cenv = Some text ->
+  exists t, find_template (r_templates (c_reg cf)) name = Some t /\
+    forall f st cd, (cfuel <= f)%nat -> wok st -> cd <> [] -> (forall k, sc_lookup cd k = cenv k) -> envok cenv ->
+      exists st' ws rv, call_enter (walk cf f) t cd st = (Ok rv, st') /\ wrote st st' ws /\ concat_b ws = text
+                        /\ mode st' = mode st /\ ctx st' = ctx st.
+(* (JS) the function of a callee returns the callee's text for every data object that holds the callee's data *)
+Definition js_callee_ok (ij : option value) (callee : bstr -> (bstr -> option value) -> option bstr)
+                        (jfn : bstr -> jval -> jval -> outcome bstr) : Prop :=
+  forall name cenv text jd ijv, callee name cenv = Some text -> datarel cenv jd ->
+    (forall v, ij = Some v -> ijv = to_js v) -> jfn name jd ijv = Ok text.
+Definition callctx_ok (cf : cfg) (o : jopts) (cc : callctx) : Prop :=
+  cn_ok o /\ o_msgs o = None /\ envok (cc_denv cc) /\ go_callee_ok cf (cc_callee cc) (cc_fuel cc) /\ js_callee_ok (c_ij cf) (cc_callee cc) (cc_jfn cc).
+
+Definition sim (cf : cfg) (cc : callctx) (st : mstate) (je : jenv) (jst : jstate) (old : bstr) : Prop :=
+  wok st /\ dinv (cc_denv cc) (ctx st)
   /\ env_rel (j_scope jst) (c_ij cf) (sc_lookup (ctx st)) je
+  /\ datarel (cc_denv cc) (je_data je)
   /\ ginv (j_scope jst) (j_n jst) (j_buf jst)
   /\ assoc_s (j_buf jst) (je_vars je) = Some (JStr old)
   /\ j_auto jst = mode st.
@@ -35,36 +60,38 @@ Proof.
   - intros x i. rewrite <- !H. apply El.
 Qed.
 
-Definition sim_step (cf : cfg) (o : jopts) (lv : list bstr) (st : mstate) (je : jenv) (jst : jstate) (s : cstmt) (fuel : nat)
+Definition sim_step (cf : cfg) (o : jopts) (cc : callctx) (lv : list bstr) (st : mstate) (je : jenv) (jst : jstate) (s : cstmt) (fuel : nat)
                     (text : bstr) (env' : bstr -> option value) (old : bstr) : Prop :=
   exists st' ws rv je' jst',
     let j := fst (sgen (mode st) (j_buf jst) (j_scope jst) (j_n jst) s) in
     (* Go *)  walk cf fuel (snode s) st = (Ok rv, st') /\ wrote st st' ws /\ concat_b ws = text
               /\ mode st' = mode st /\ tl (ctx st') = tl (ctx st) /\ (forall k, sc_lookup (ctx st') k = env' k)
-    (* JS *)  /\ js_exec je j = Ok je' /\ je_data je' = je_data je
+    (* JS *)  /\ js_exec (cc_jfn cc) je j = Ok je' /\ je_data je' = je_data je
     (* Gen *) /\ jwalk o fuel (snode s) jst = Ok (tt, jst') /\ j_out jst' = rev (sprint (j_indent jst) j) ++ j_out jst
               /\ j_indent jst' = j_indent jst /\ j_buf jst' = j_buf jst /\ tl (j_scope jst') = tl (j_scope jst)
-    /\ sim cf st' je' jst' (old ++ text) /\ lvok lv (j_scope jst').
+    /\ sim cf cc st' je' jst' (old ++ text) /\ lvok lv (j_scope jst').
 
-Theorem gen_correct_partial_stmt cf o lv st je jst s fuel text env' old :
-  c_oblig cf = [] -> (sdepth s < fuel)%nat -> sim cf st je jst old ->
+Theorem gen_correct_partial_stmt cf o cc lv st je jst s fuel text env' old :
+  c_oblig cf = [] -> callctx_ok cf o cc -> (cc_fuel cc + sdepth s < fuel)%nat -> sim cf cc st je jst old ->
   swf lv s = true -> lvok lv (j_scope jst) ->
-  sout (c_ij cf) (mode st) go_print_text (sc_lookup (ctx st)) s = Some (text, env') ->
-  sim_step cf o lv st je jst s fuel text env' old.
+  sout (c_ij cf) (mode st) go_print_text (cc_denv cc) (cc_callee cc) (sc_lookup (ctx st)) s = Some (text, env') ->
+  sim_step cf o cc lv st je jst s fuel text env' old.
 Proof.
-  intros Hob Hf (Hg & Hn & ER & G & Hbuf & Hmode) Hwf Hlv E. unfold sim_step.
+  intros Hob (Hcn & Hnb & Hdenv & HGo & HJs) Hf (Hg & Hd & ER & DR & G & Hbuf & Hmode) Hwf Hlv E. unfold sim_step.
   destruct (sgen (mode st) (j_buf jst) (j_scope jst) (j_n jst) s) as [j [sc' n']] eqn:Eg. cbn [fst].
   assert (Hc : envok (sc_lookup (ctx st))).
   { intros k x Hk. pose proof (er_core _ _ _ _ ER k) as H. unfold env_val in H. rewrite Hk in H. exact H. }
   assert (Hij : forall x, c_ij cf = Some x -> core_value x = true) by (intros x Hx; exact (er_core_ij _ _ _ _ ER x Hx)).
+  pose proof (dinv_nonempty _ _ Hd) as Hn.
   (* Go *)
-  destruct (proj1 (interp_all cf Hob Hij) s fuel st text (sc_lookup (ctx st)) env' Hf Hg Hn (fun k => eq_refl) Hc E)
-    as (st' & ws & rv & E1 & W1 & C1 & M1 & N1 & T1 & A1).
+  destruct (proj1 (interp_all cf Hob Hij (cc_denv cc) Hdenv (cc_callee cc) (cc_fuel cc) HGo) s fuel st text (sc_lookup (ctx st)) env' Hf Hg Hn
+              (conj (fun k => eq_refl) Hd) Hc E)
+    as (st' & ws & rv & E1 & W1 & C1 & M1 & N1 & T1 & A1 & D1).
   (* JS *)
-  destruct (proj1 (js_exec_all (c_ij cf) (mode st)) s (j_buf jst) (j_scope jst) (j_n jst) (sc_lookup (ctx st)) je old text env' j sc' n' G E (conj ER Hbuf) Eg)
+  destruct (proj1 (js_exec_all (c_ij cf) (mode st) (cc_denv cc) (cc_callee cc) (cc_jfn cc) HJs) s (j_buf jst) (j_scope jst) (j_n jst) (sc_lookup (ctx st)) je old text env' j sc' n' G E (conj ER Hbuf) DR Eg)
     as (je' & E2 & (ER' & Hbuf') & (D2 & F2)).
   (* Gen *)
-  destruct (proj1 (sgen_print_all o) s lv fuel jst j sc' n' (j_indent jst) (j_buf jst) (j_auto jst) (j_scope jst) (j_n jst) Hf (gi_nonempty _ _ _ G)
+  destruct (proj1 (sgen_print_all o Hcn Hnb) s lv fuel jst j sc' n' (j_indent jst) (j_buf jst) (j_auto jst) (j_scope jst) (j_n jst) ltac:(lia) (gi_nonempty _ _ _ G)
               Hlv Hwf (shape_refl jst)) as (jst' & E3 & O3 & I3 & B3 & A3 & S3 & N3). { rewrite Hmode. exact Eg. }
   destruct (sgen_scope _ _ _ _ _ _ _ _ Eg (gi_nonempty _ _ _ G)) as [Htl _].
   assert (ER2 : env_rel (j_scope jst') (c_ij cf) (sc_lookup (ctx st')) je').
@@ -76,98 +103,137 @@ Proof.
   split; [exact E2|]. split; [exact D2|]. split; [exact E3|]. split; [exact O3|]. split; [exact I3|]. split; [exact B3|].
   split; [rewrite S3; exact Htl|].
   split; [|rewrite S3; exact (lvok_after lv _ _ _ _ _ _ _ _ (swf_binder lv s Hwf) Eg Hlv)].
-  unfold sim. split; [exact (wrote_wok _ _ _ W1 Hg)|]. split; [exact N1|]. split; [exact ER2|]. split; [exact G2|]. split; [rewrite B3; exact Hbuf'|congruence].
+  unfold sim. split; [exact (wrote_wok _ _ _ W1 Hg)|]. split; [exact D1|]. split; [exact ER2|]. split; [rewrite D2; exact DR|].
+  split; [exact G2|]. split; [rewrite B3; exact Hbuf'|congruence].
 Qed.
 
 (* the stages by name *)
-Theorem gen_correct_partial_if cf o lv st je jst c th rest fuel text env' old :
-  c_oblig cf = [] -> (sdepth (SIf c th rest) < fuel)%nat -> sim cf st je jst old ->
+Theorem gen_correct_partial_if cf o cc lv st je jst c th rest fuel text env' old :
+  c_oblig cf = [] -> callctx_ok cf o cc -> (cc_fuel cc + sdepth (SIf c th rest) < fuel)%nat -> sim cf cc st je jst old ->
   swf lv (SIf c th rest) = true -> lvok lv (j_scope jst) ->
-  sout (c_ij cf) (mode st) go_print_text (sc_lookup (ctx st)) (SIf c th rest) = Some (text, env') ->
-  sim_step cf o lv st je jst (SIf c th rest) fuel text env' old.
+  sout (c_ij cf) (mode st) go_print_text (cc_denv cc) (cc_callee cc) (sc_lookup (ctx st)) (SIf c th rest) = Some (text, env') ->
+  sim_step cf o cc lv st je jst (SIf c th rest) fuel text env' old.
 Proof. apply gen_correct_partial_stmt. Qed.
-Theorem gen_correct_partial_let cf o lv st je jst name e fuel text env' old :
-  c_oblig cf = [] -> (sdepth (SLet name e) < fuel)%nat -> sim cf st je jst old ->
+Theorem gen_correct_partial_let cf o cc lv st je jst name e fuel text env' old :
+  c_oblig cf = [] -> callctx_ok cf o cc -> (cc_fuel cc + sdepth (SLet name e) < fuel)%nat -> sim cf cc st je jst old ->
   swf lv (SLet name e) = true -> lvok lv (j_scope jst) ->
-  sout (c_ij cf) (mode st) go_print_text (sc_lookup (ctx st)) (SLet name e) = Some (text, env') ->
-  sim_step cf o lv st je jst (SLet name e) fuel text env' old.
+  sout (c_ij cf) (mode st) go_print_text (cc_denv cc) (cc_callee cc) (sc_lookup (ctx st)) (SLet name e) = Some (text, env') ->
+  sim_step cf o cc lv st je jst (SLet name e) fuel text env' old.
 Proof. apply gen_correct_partial_stmt. Qed.
-Theorem gen_correct_partial_let_content cf o lv st je jst name body fuel text env' old :
-  c_oblig cf = [] -> (sdepth (SLetC name body) < fuel)%nat -> sim cf st je jst old ->
+Theorem gen_correct_partial_let_content cf o cc lv st je jst name body fuel text env' old :
+  c_oblig cf = [] -> callctx_ok cf o cc -> (cc_fuel cc + sdepth (SLetC name body) < fuel)%nat -> sim cf cc st je jst old ->
   swf lv (SLetC name body) = true -> lvok lv (j_scope jst) ->
-  sout (c_ij cf) (mode st) go_print_text (sc_lookup (ctx st)) (SLetC name body) = Some (text, env') ->
-  sim_step cf o lv st je jst (SLetC name body) fuel text env' old.
+  sout (c_ij cf) (mode st) go_print_text (cc_denv cc) (cc_callee cc) (sc_lookup (ctx st)) (SLetC name body) = Some (text, env') ->
+  sim_step cf o cc lv st je jst (SLetC name body) fuel text env' old.
 Proof. apply gen_correct_partial_stmt. Qed.
-Theorem gen_correct_partial_switch cf o lv st je jst v cs fuel text env' old :
-  c_oblig cf = [] -> (sdepth (SSwitch v cs) < fuel)%nat -> sim cf st je jst old ->
+Theorem gen_correct_partial_switch cf o cc lv st je jst v cs fuel text env' old :
+  c_oblig cf = [] -> callctx_ok cf o cc -> (cc_fuel cc + sdepth (SSwitch v cs) < fuel)%nat -> sim cf cc st je jst old ->
   swf lv (SSwitch v cs) = true -> lvok lv (j_scope jst) ->
-  sout (c_ij cf) (mode st) go_print_text (sc_lookup (ctx st)) (SSwitch v cs) = Some (text, env') ->
-  sim_step cf o lv st je jst (SSwitch v cs) fuel text env' old.
+  sout (c_ij cf) (mode st) go_print_text (cc_denv cc) (cc_callee cc) (sc_lookup (ctx st)) (SSwitch v cs) = Some (text, env') ->
+  sim_step cf o cc lv st je jst (SSwitch v cs) fuel text env' old.
 Proof. apply gen_correct_partial_stmt. Qed.
 
 (* {foreach $x in e}..{ifempty}..{/foreach} with index($x) / isFirst($x) / isLast($x) of this and of enclosing loops in the
    body: the Go renderer binds $x, the hidden $x.index and $x.lastIndex in a frame of its own; the JavaScript declares
    xList_n / xLimit_n, counts xIndex_n from 0 and binds x_n = xList_n[xIndex_n] each time round *)
-Theorem gen_correct_partial_loops cf o lv st je jst x e body hasie ie fuel text env' old :
-  c_oblig cf = [] -> (sdepth (SFor x e body hasie ie) < fuel)%nat -> sim cf st je jst old ->
+Theorem gen_correct_partial_loops cf o cc lv st je jst x e body hasie ie fuel text env' old :
+  c_oblig cf = [] -> callctx_ok cf o cc -> (cc_fuel cc + sdepth (SFor x e body hasie ie) < fuel)%nat -> sim cf cc st je jst old ->
   swf lv (SFor x e body hasie ie) = true -> lvok lv (j_scope jst) ->
-  sout (c_ij cf) (mode st) go_print_text (sc_lookup (ctx st)) (SFor x e body hasie ie) = Some (text, env') ->
-  sim_step cf o lv st je jst (SFor x e body hasie ie) fuel text env' old.
+  sout (c_ij cf) (mode st) go_print_text (cc_denv cc) (cc_callee cc) (sc_lookup (ctx st)) (SFor x e body hasie ie) = Some (text, env') ->
+  sim_step cf o cc lv st je jst (SFor x e body hasie ie) fuel text env' old.
 Proof. apply gen_correct_partial_stmt. Qed.
 
 (* {for $x in range(..)}: the Go renderer builds the list range() returns and loops over it as over any list; the
    JavaScript declares xInit_n / xStep_n, computes xLimit_n = Math.max(0, Math.ceil((limit - xInit_n) / xStep_n)) and binds
    x_n = xInit_n + xIndex_n * xStep_n each time round (a positive step; limit - init within 2^53) *)
-Theorem gen_correct_partial_for_range cf o lv st je jst x a1 rest body hasie ie fuel text env' old :
-  c_oblig cf = [] -> (sdepth (SForRange x a1 rest body hasie ie) < fuel)%nat -> sim cf st je jst old ->
+Theorem gen_correct_partial_for_range cf o cc lv st je jst x a1 rest body hasie ie fuel text env' old :
+  c_oblig cf = [] -> callctx_ok cf o cc -> (cc_fuel cc + sdepth (SForRange x a1 rest body hasie ie) < fuel)%nat -> sim cf cc st je jst old ->
   swf lv (SForRange x a1 rest body hasie ie) = true -> lvok lv (j_scope jst) ->
-  sout (c_ij cf) (mode st) go_print_text (sc_lookup (ctx st)) (SForRange x a1 rest body hasie ie) = Some (text, env') ->
-  sim_step cf o lv st je jst (SForRange x a1 rest body hasie ie) fuel text env' old.
+  sout (c_ij cf) (mode st) go_print_text (cc_denv cc) (cc_callee cc) (sc_lookup (ctx st)) (SForRange x a1 rest body hasie ie) = Some (text, env') ->
+  sim_step cf o cc lv st je jst (SForRange x a1 rest body hasie ie) fuel text env' old.
 Proof. apply gen_correct_partial_stmt. Qed.
 
 (* {css sfx} and {css e, sfx}: the Go renderer writes String(e) + "-" + sfx in one Write; the JavaScript appends  e + '-'  and then 'sfx' *)
-Theorem gen_correct_partial_css cf o lv st je jst e sfx fuel text env' old :
-  c_oblig cf = [] -> (sdepth (SCss e sfx) < fuel)%nat -> sim cf st je jst old ->
+Theorem gen_correct_partial_css cf o cc lv st je jst e sfx fuel text env' old :
+  c_oblig cf = [] -> callctx_ok cf o cc -> (cc_fuel cc + sdepth (SCss e sfx) < fuel)%nat -> sim cf cc st je jst old ->
   swf lv (SCss e sfx) = true -> lvok lv (j_scope jst) ->
-  sout (c_ij cf) (mode st) go_print_text (sc_lookup (ctx st)) (SCss e sfx) = Some (text, env') ->
-  sim_step cf o lv st je jst (SCss e sfx) fuel text env' old.
+  sout (c_ij cf) (mode st) go_print_text (cc_denv cc) (cc_callee cc) (sc_lookup (ctx st)) (SCss e sfx) = Some (text, env') ->
+  sim_step cf o cc lv st je jst (SCss e sfx) fuel text env' old.
 Proof. apply gen_correct_partial_stmt. Qed.
 
 (* the general statement with sim and sim_step unfolded, for a renderer that writes to its output (no capture
    buffer, no budget), as stated in Properties/C04.v *)
-Theorem gen_correct_partial_stmt_unfolded : forall cf o lv st je jst s fuel text env' old,
-  c_oblig cf = [] -> (sdepth s < fuel)%nat ->
+Theorem gen_correct_partial_stmt_unfolded : forall cf o cc lv st je jst s fuel text env' old,
+  c_oblig cf = [] -> callctx_ok cf o cc -> (cc_fuel cc + sdepth s < fuel)%nat ->
   swf lv s = true -> lvok lv (j_scope jst) ->
-  (* sim cf st je jst old *)
-  bufs st = [] -> calls_left st = None -> bytes_left st = None -> ctx st <> [] ->
+  (* sim cf cc st je jst old *)
+  bufs st = [] -> calls_left st = None -> bytes_left st = None -> dinv (cc_denv cc) (ctx st) ->
   env_rel (j_scope jst) (c_ij cf) (sc_lookup (ctx st)) je ->
+  datarel (cc_denv cc) (je_data je) ->
   ginv (j_scope jst) (j_n jst) (j_buf jst) ->
   assoc_s (j_buf jst) (je_vars je) = Some (JStr old) ->
   j_auto jst = mode st ->
-  sout (c_ij cf) (mode st) go_print_text (sc_lookup (ctx st)) s = Some (text, env') ->
+  sout (c_ij cf) (mode st) go_print_text (cc_denv cc) (cc_callee cc) (sc_lookup (ctx st)) s = Some (text, env') ->
   exists st' ws rv je' jst',
     let j := fst (sgen (mode st) (j_buf jst) (j_scope jst) (j_n jst) s) in
     walk cf fuel (snode s) st = (Ok rv, st') /\ out st' = rev ws ++ out st /\ concat_b ws = text
     /\ mode st' = mode st /\ tl (ctx st') = tl (ctx st) /\ (forall k, sc_lookup (ctx st') k = env' k)
-    /\ js_exec je j = Ok je' /\ je_data je' = je_data je
+    /\ js_exec (cc_jfn cc) je j = Ok je' /\ je_data je' = je_data je
     /\ jwalk o fuel (snode s) jst = Ok (tt, jst') /\ j_out jst' = rev (sprint (j_indent jst) j) ++ j_out jst
     /\ j_indent jst' = j_indent jst /\ j_buf jst' = j_buf jst /\ tl (j_scope jst') = tl (j_scope jst)
-    (* sim cf st' je' jst' (old ++ text) *)
-    /\ bufs st' = [] /\ calls_left st' = None /\ bytes_left st' = None /\ ctx st' <> []
+    (* sim cf cc st' je' jst' (old ++ text) *)
+    /\ bufs st' = [] /\ calls_left st' = None /\ bytes_left st' = None /\ dinv (cc_denv cc) (ctx st')
     /\ env_rel (j_scope jst') (c_ij cf) (sc_lookup (ctx st')) je'
+    /\ datarel (cc_denv cc) (je_data je')
     /\ ginv (j_scope jst') (j_n jst') (j_buf jst')
     /\ assoc_s (j_buf jst') (je_vars je') = Some (JStr (old ++ text))
     /\ j_auto jst' = mode st' /\ lvok lv (j_scope jst').
 Proof.
-  intros cf o lv st je jst s fuel text env' old Hob Hf Hwf Hlv H1 H2 H3 H4 H5 H6 H7 H8 E.
+  intros cf o cc lv st je jst s fuel text env' old Hob Hcc Hf Hwf Hlv H1 H2 H3 H4 H5 H5d H6 H7 H8 E.
   assert (W : wok st) by (unfold wok; rewrite H1; auto).
-  destruct (gen_correct_partial_stmt cf o lv st je jst s fuel text env' old Hob Hf (conj W (conj H4 (conj H5 (conj H6 (conj H7 H8))))) Hwf Hlv E)
-    as (st' & ws & rv & je' & jst' & A1 & A2 & A3 & A4 & A5 & A6 & A7 & A8 & A9 & A10 & A11 & A12 & A13 & (B1 & B4 & B5 & B6 & B7 & B8) & Hlv').
+  destruct (gen_correct_partial_stmt cf o cc lv st je jst s fuel text env' old Hob Hcc Hf (conj W (conj H4 (conj H5 (conj H5d (conj H6 (conj H7 H8)))))) Hwf Hlv E)
+    as (st' & ws & rv & je' & jst' & A1 & A2 & A3 & A4 & A5 & A6 & A7 & A8 & A9 & A10 & A11 & A12 & A13 & (B1 & B4 & B5 & B5d & B6 & B7 & B8) & Hlv').
   destruct (wrote_out _ _ _ H1 A2) as [Hb Ho]. destruct A2 as (Hcl & Hby & _).
   exists st', ws, rv, je', jst'. cbn zeta in *.
   split; [exact A1|]. split; [exact Ho|]. split; [exact A3|]. split; [exact A4|]. split; [exact A5|]. split; [exact A6|].
   split; [exact A7|]. split; [exact A8|]. split; [exact A9|]. split; [exact A10|]. split; [exact A11|]. split; [exact A12|]. split; [exact A13|].
-  split; [exact Hb|]. split; [congruence|]. split; [congruence|]. split; [exact B4|]. split; [exact B5|]. split; [exact B6|]. split; [exact B7|]. split; [exact B8|exact Hlv'].
+  split; [exact Hb|]. split; [congruence|]. split; [congruence|]. split; [exact B4|]. split; [exact B5|]. split; [exact B5d|]. split; [exact B6|]. split; [exact B7|]. split; [exact B8|exact Hlv'].
+Qed.
+
+(* the call stage: {call name}, {call name data="all"}, {call name data="$e"} (e a map whose keys are identifiers) with value
+   parameters {param k: e /}: the Go renderer builds the callee's scope (a fresh frame with the parameters over nothing,
+   over the frames alldata() returns, or over the map), enters the callee and writes what it writes; the JavaScript is
+     buf += name(D, opt_sb, opt_ijData);   D = {} | opt_data | e   or   soy.$$augmentMap(D, {k: e, ..})
+   -- relative to a context cc that says what the callee writes for given data on both sides (callctx_ok); the theorem
+   C04_call_correct (Proofs/MiniJSCall.v) discharges the context for a whole program by induction on the call depth *)
+Theorem gen_correct_partial_call cf o cc lv st je jst name d ps fuel text env' old :
+  c_oblig cf = [] -> callctx_ok cf o cc -> (cc_fuel cc + sdepth (SCall name d ps) < fuel)%nat -> sim cf cc st je jst old ->
+  swf lv (SCall name d ps) = true -> lvok lv (j_scope jst) ->
+  sout (c_ij cf) (mode st) go_print_text (cc_denv cc) (cc_callee cc) (sc_lookup (ctx st)) (SCall name d ps) = Some (text, env') ->
+  sim_step cf o cc lv st je jst (SCall name d ps) fuel text env' old.
+Proof. apply gen_correct_partial_stmt. Qed.
+
+(* a message without plural, rendered without a bundle: {msg desc=".."}text{$x}{call ..}..{/msg} -- raw text and placeholders
+   (print, call) walked in the scope of the message on both sides; the generator without a bundle (o_msgs o = None) *)
+Theorem gen_correct_partial_msg cf o cc lv st je jst body fuel text env' old :
+  c_oblig cf = [] -> callctx_ok cf o cc -> (cc_fuel cc + sdepth (SMsg body) < fuel)%nat -> sim cf cc st je jst old ->
+  swf lv (SMsg body) = true -> lvok lv (j_scope jst) ->
+  sout (c_ij cf) (mode st) go_print_text (cc_denv cc) (cc_callee cc) (sc_lookup (ctx st)) (SMsg body) = Some (text, env') ->
+  sim_step cf o cc lv st je jst (SMsg body) fuel text env' old.
+Proof. apply gen_correct_partial_stmt. Qed.
+
+(* a context for statements without calls: no callee writes anything (sout is None on every call) *)
+Definition cc_nocalls (denv : bstr -> option value) : callctx :=
+  {| cc_denv := denv; cc_callee := fun _ _ => None; cc_jfn := fun _ _ _ => OutOfModel; cc_fuel := 0 |}.
+Lemma nocallee_go cf : go_callee_ok cf (fun _ _ => None) 0.
+Proof. intros name cenv text H. discriminate. Qed.
+Lemma nocallee_js ij jfn : js_callee_ok ij (fun _ _ => None) jfn.
+Proof. intros name cenv text jd ijv H. discriminate. Qed.
+Lemma cc_nocalls_ok cf o denv : cn_ok o -> o_msgs o = None -> envok denv -> callctx_ok cf o (cc_nocalls denv).
+Proof.
+  intros Hcn Hnb Hd. split; [exact Hcn|]. split; [exact Hnb|]. split; [exact Hd|]. split.
+  - intros name cenv text H. discriminate.
+  - intros name cenv text jd ijv H. discriminate.
 Qed.
 
 (* names without an underscore are never generated names *)
@@ -177,16 +243,17 @@ Lemma bounded_name n v m : m <= n -> bounded n (jsc_name v m).
 Proof. intros H v' m' E. apply jsc_name_inj in E. lia. Qed.
 
 (* the JavaScript side for one statement, with jinv and frame unfolded *)
-Theorem js_exec_stmt : forall ij mode buf s sc n env je old text env' j sc' n',
-  ginv sc n buf -> sout ij mode go_print_text env s = Some (text, env') ->
-  env_rel sc ij env je -> assoc_s buf (je_vars je) = Some (JStr old) ->
+Theorem js_exec_stmt : forall ij mode denv callee jfn buf s sc n env je old text env' j sc' n',
+  js_callee_ok ij callee jfn ->
+  ginv sc n buf -> sout ij mode go_print_text denv callee env s = Some (text, env') ->
+  env_rel sc ij env je -> assoc_s buf (je_vars je) = Some (JStr old) -> datarel denv (je_data je) ->
   sgen mode buf sc n s = (j, (sc', n')) ->
-  exists je', js_exec je j = Ok je'
+  exists je', js_exec jfn je j = Ok je'
     /\ (env_rel sc' ij env' je' /\ assoc_s buf (je_vars je') = Some (JStr (old ++ text)))
     /\ (je_data je' = je_data je
         /\ forall g, bounded n g -> bstr_eqb g buf = false -> assoc_s g (je_vars je') = assoc_s g (je_vars je)).
 Proof.
-  intros ij mode buf s sc n env je old text env' j sc' n' G E ER Hb Eg.
-  exact (proj1 (js_exec_all ij mode) s buf sc n env je old text env' j sc' n' G E (conj ER Hb) Eg).
+  intros ij mode denv callee jfn buf s sc n env je old text env' j sc' n' HJ G E ER Hb DR Eg.
+  exact (proj1 (js_exec_all ij mode denv callee jfn HJ) s buf sc n env je old text env' j sc' n' G E (conj ER Hb) DR Eg).
 Qed.
 
